@@ -105,7 +105,7 @@ func mkPool(id uint64, useOracle bool, a, b ammtypes.PoolAsset, fee sdkmath.Lega
 		assets[0], assets[1] = assets[1], assets[0]
 	}
 	return ammtypes.Pool{PoolId: id, Address: ammtypes.NewPoolAddress(id).String(), RebalanceTreasury: ammtypes.NewPoolRebalanceTreasury(id).String(),
-		PoolParams: ammtypes.PoolParams{SwapFee: fee, UseOracle: useOracle, FeeDenom: "uusdc"},
+		PoolParams:  ammtypes.PoolParams{SwapFee: fee, UseOracle: useOracle, FeeDenom: "uusdc"},
 		TotalShares: sdk.NewCoin(ammtypes.GetPoolShareDenom(id), sdkmath.NewIntWithDecimal(100, 18)),
 		PoolAssets:  assets, TotalWeight: a.Weight.Add(b.Weight)}
 }
